@@ -22,6 +22,8 @@ pub enum TransformError {
   AlreadyDefined(String),
   #[error("source `{0}` should be $-prefixed.")]
   MalformedVar(String),
+  #[error("`replace` is not a valid regular expression.")]
+  InvalidRegex(#[from] regex::Error),
 }
 
 pub struct Transform {
